@@ -47,13 +47,13 @@ m = {
         "add_only": True,
     },
     "engines": [
-        {"name": "parser-history", "path": "harness/pexec.go, harness/pgen.go, harness/wexec.go, harness/parserprops_test.go, harness/wrapprops_test.go, harness/large_test.go",
+        {"name": "parser-history", "path": "harness/pexec.go, harness/pgen.go, harness/wexec.go, harness/scripts.go, harness/parserprops_test.go, harness/wrapprops_test.go, harness/large_test.go, harness/volume_test.go, harness/big_test.go, harness/c11_test.go, harness/c11far_test.go, harness/c12_test.go, harness/c12far_test.go, harness/c13_test.go, harness/c19_test.go",
          "serves_properties": ["C01", "C02", "C03", "C08", "C11", "C12", "C13", "C14", "C15", "C16", "C19"],
          "kind_free_text": "rapid stateful generation of parser call histories executed against the stream model and the reference LZ77 expander"},
-        {"name": "decoder-model", "path": "harness/dexec.go, harness/dgen.go, harness/dec_test.go, harness/c07_test.go",
+        {"name": "decoder-model", "path": "harness/dexec.go, harness/dgen.go, harness/dec_test.go, harness/declarge_test.go, harness/c07_test.go",
          "serves_properties": ["C04", "C05", "C06", "C07", "C17", "C18"],
          "kind_free_text": "rapid stateful generation of DecoderBuffer/Decoder histories with scripted fault-injecting writers against a reference expansion model"},
-        {"name": "suffix-oracles", "path": "harness/suffixref.go, harness/suffixgen.go, harness/c09_test.go, harness/c10_test.go",
+        {"name": "suffix-oracles", "path": "harness/suffixref.go, harness/suffixgen.go, harness/c09_test.go, harness/c10_test.go, harness/big_test.go",
          "serves_properties": ["C09", "C10"],
          "kind_free_text": "structured text generators and small-scope enumeration against linear-time and brute-force suffix array / LCP / prefix-group checkers"},
         {"name": "config-algebra", "path": "harness/pcfg.go, harness/c16_test.go, harness/c20_test.go",
